@@ -46,3 +46,16 @@ func VerifScanForPragmaArg(kind uint8, start int, pragma string, text string) (s
 	span, ok := scanForPragmaArg(pragmaArg(kind), start, pragma, text)
 	return span.Text, span.Range.Loc.Start, span.Range.Len, ok
 }
+
+// VerifRescanTemplate: NewLexer over a text that starts with '}' (token TCloseBrace), then
+// RescanCloseBraceAsTemplateToken as the parser does inside a template literal.
+func VerifRescanTemplate(text string) (tok T, end int, textLen int) {
+	lexer := NewLexer(logger.NewDeferLog(logger.DeferLogAll, nil), logger.Source{Contents: text}, config.TSOptions{})
+	lexer.RescanCloseBraceAsTemplateToken()
+	if lexer.decodedStringLiteralOrNil != nil {
+		textLen = len(lexer.decodedStringLiteralOrNil)
+	} else {
+		textLen = len(lexer.encodedStringLiteralText)
+	}
+	return lexer.Token, lexer.end, textLen
+}
